@@ -208,7 +208,9 @@ func init() {
 			// blocks forever on a sequential lock leaked by an earlier panicking delivery never
 			// reaches its after hooks
 			c.Rule("C08.R4", "no delivery can block forever on a sequential lock that an earlier delivery leaked")
-			if c.Borrow("C08.R4", func(k string) bool { return strings.Contains(k, "sequential-lock-released") || strings.Contains(k, "sequential-unlock") }, func(c2 *Ctx) {
+			if c.Borrow("C08.R4", func(k string) bool {
+				return strings.Contains(k, "sequential-lock-released") || strings.Contains(k, "sequential-unlock")
+			}, func(c2 *Ctx) {
 				runFrames(c2, p, R, map[string]string{"C05.R3": "X"})
 				c.Stats["sequential_lock_sites"] = c2.Stats["sequential_lock_sites"]
 			}) == 0 {
